@@ -1133,11 +1133,14 @@ per_kernel!(svr_t, svr_k);
 // ------------------------------------------------------------------------------------------------
 fn kmeans_t<T: Num>(c: &mut Case, sc: &Scen) {
     let k = c.rng.us(2, 3.min(sc.n / 2).max(2));
-    sc.describe(c, "KMeans", json!({ "k": k }));
+    // iteration limits down to a single pass (and passes that cannot converge) are ordinary settings
+    let max_iter = *c.rng.pick(&[1usize, 1, 2, 3, 100]);
+    c.bucket(&format!("kmeans:max_iter={}", max_iter));
+    sc.describe(c, "KMeans", json!({ "k": k, "max_iter": max_iter }));
     let q: DM<T> = to_dense(&sc.q);
     let fit = |d: &Ds| {
         let (x, _) = dx::<T>(d);
-        KMeans::fit(&x, KMeansParameters::default().with_k(k)).map_err(es)
+        KMeans::fit(&x, KMeansParameters::default().with_k(k).with_max_iter(max_iter)).map_err(es)
     };
     let outs = |m: &KMeans<T>| Ok(fv(&m.predict(&q).map_err(es)?));
     // random initialisation: no refit clause
@@ -1542,6 +1545,9 @@ fn dense_rt<T: Num>(rows: usize, cols: usize, vals: &[f64]) -> Result<(), String
     tag("dense.json.seq-form", same(&r, tol))?;
 
     // ---- inequality: other shape, clearly other values
+    if v.is_empty() {
+        return Ok(()); // an empty matrix has no entry to perturb; its equality with other empty shapes is left open
+    }
     if rows != cols {
         let o = DM::<T>::from_array(cols, rows, &v);
         ck("dense.eq-different-shape", m != o && o != m, "a matrix equals one of the transposed shape")?;
@@ -1588,7 +1594,8 @@ fn dense_case(c: &mut Case, rows: usize, cols: usize) {
     c.describe(json!({"type": "DenseMatrix", "rows": rows, "cols": cols, "values": kind, "row_major": vals}));
     c.bucket(&format!("dense:values:{}", kind));
     c.bucket(if rows == cols { "dense:square" } else if rows > cols { "dense:tall" } else { "dense:wide" });
-    if rows * cols >= 2 {
+    c.bucket_if(rows * cols == 0, "dense:empty(zero rows or columns)");
+    if rows * cols >= 2 || rows * cols == 0 {
         c.nontrivial();
     }
     let sg = format!("DenseMatrix/{}", if rows == cols { "square" } else { "non-square" });
@@ -1614,15 +1621,15 @@ fn dense_case(c: &mut Case, rows: usize, cols: usize) {
     }
 }
 
-/// every shape 1..8 × 1..8 (index enumerates the 64 shapes; the values are drawn per case)
+/// every shape 0..8 × 0..8 (index enumerates the 81 shapes, empty ones included; the values are drawn per case)
 fn dense_shapes(c: &mut Case) {
-    let s = (c.index % 64) as usize;
-    dense_case(c, s / 8 + 1, s % 8 + 1);
+    let s = (c.index % 81) as usize;
+    dense_case(c, s / 9, s % 9);
 }
 
 fn dense_random(c: &mut Case) {
-    let rows = c.rng.us(1, 14);
-    let cols = c.rng.us(1, 14);
+    let rows = if c.rng.bool(0.03) { 0 } else { c.rng.us(1, 14) };
+    let cols = if c.rng.bool(0.03) { 0 } else { c.rng.us(1, 14) };
     dense_case(c, rows, cols);
 }
 
